@@ -51,12 +51,17 @@ def distinctKeys (keys : List (Bytes × Int)) : Bool :=
   | [] => true
   | k :: ks => !(ks.contains k) && distinctKeys ks
 
+/-- one payload as `(topic, (partition, item))`; `none` for a null topic or an item the grammar cannot carry -/
+def keyOne {α β : Type} (topic : α → Option Bytes) (partition : α → Int) (item : α → Option β) (x : α) :
+    Option (Bytes × (Int × β)) :=
+  match topic x, item x with
+  | some t, some b => some (t, (partition x, b))
+  | _, _ => none
+
 /-- topic-keyed payloads, all topics non-null, all (topic, partition) distinct -/
 def keyed {α β : Type} (topic : α → Option Bytes) (partition : α → Int) (item : α → Option β)
     (xs : List α) : Option (List (Bytes × (Int × β))) :=
-  match xs.mapM (fun x => match topic x, item x with
-      | some t, some b => some (t, (partition x, b))
-      | _, _ => none) with
+  match xs.mapM (keyOne topic partition item) with
   | none => none
   | some l => if distinctKeys (l.map (fun e => (e.1, e.2.1))) then some l else none
 
